@@ -195,6 +195,10 @@ def run(ctx):
                 rep.ob('R11.5', '%s::deserialize: OPRF element passed the identity test' % nm, bool(idt), '', where_of(d), sn)
     ns = len(ctx.suite_names)
     rep.floor('R11.3', 'filters established', n_filters, 4 * ns)
+    # R11.Z the zero test DeriveDiffieHellmanKeyPair filters with is a test of the derived scalar itself against zero
+    n_z = sum(an.kegroup_zero_test_reviewed(ctx, rep, 'R11.Z', sn) for sn in ctx.suite_names)
+    rep.floor('R11.Z', 'KeGroup::is_zero_scalar instances reviewed (every suite whose key-exchange group is not Curve25519)', n_z,
+              sum(1 for sn in ctx.suite_names if suite_params(sn)['ke'] != 'c25519'))
     from rules import profile
     profile.check(ctx, rep, 'R11.P', ['opaque_ke::keypair::PublicKey::<KG>::deserialize', '<opaque_ke::keypair::PrivateKey<KG> as opaque_ke::keypair::SecretKey<KG>>::deserialize'])
     from rules import witness
